@@ -76,6 +76,13 @@ func (w *writer) NeedsRollover(rollover int64) bool {
 }
 
 func (w *writer) Publish(msgs []message.Message) (int64, error) {
+	// reject the whole batch before anything is written, a partially written batch is not tracked
+	for i := range msgs {
+		if err := message.Validate(msgs[i]); err != nil {
+			return OffsetInvalid, err
+		}
+	}
+
 	nextOffset, indexTime := w.index.getNext()
 
 	items := make([]index.Item, len(msgs))
